@@ -42,8 +42,10 @@ Co == INSTANCE Collector WITH Zero <- Zero
 Kind(k) == IF k = 0 THEN "span" ELSE IF k = 1 THEN "event" ELSE "props"
 Rg(s) == {s[i] : i \in DOMAIN s}
 
-CollInit(cancelable, foreign) ==
-  [cf |-> [canc |-> cancelable, fixcd |-> TRUE, mut |-> "none"], act |-> [c \in {} |-> None], foreign |-> foreign, ftr |-> {},
+\* on = FALSE: the run is not folded (free-running traces are long - thousands of cycles per round - and the fold
+\* costs about as much again as the Abs fold: TraceAbs.tla folds the first 40 rounds of such a trace and every steered run)
+CollInit(cancelable, foreign, on) ==
+  [on |-> on, cf |-> [canc |-> cancelable, fixcd |-> TRUE, mut |-> "none"], act |-> [c \in {} |-> None], foreign |-> foreign, ftr |-> {},
    sig |-> <<>>, subs |-> <<>>, exp |-> <<>>, pending |-> FALSE, cycles |-> 0, recs |-> 0, drift |-> <<>>]
 
 Drift(c, w, d, p) == [c EXCEPT !.drift = Append(@, [w |-> w, d |-> d, p |-> p])]
@@ -62,9 +64,15 @@ OfTrace(recs, tr) == LET s == SelectSeq(recs, LAMBDA r : r.trace = tr) IN [i \in
 StatOf(act) == {<<cid, Len(act[cid].colls), Len(act[cid].dang)>> : cid \in DOMAIN act}
 
 CollStep(c, e) ==
+  IF ~c.on THEN c ELSE
   CASE e.ev = "process" ->
-         [c EXCEPT !.sig = Sig("start", e.starts) \o Sig("drop", e.drops) \o Sig("commit", e.commits), !.subs = <<>>]
+         \* (free-running runs contain thousands of cycles that find nothing: kept cheap)
+         IF e.starts = <<>> /\ e.drops = <<>> /\ e.commits = <<>> THEN [c EXCEPT !.sig = <<>>, !.subs = <<>>]
+         ELSE [c EXCEPT !.sig = Sig("start", e.starts) \o Sig("drop", e.drops) \o Sig("commit", e.commits), !.subs = <<>>]
     [] e.ev = "batch" -> [c EXCEPT !.subs = e.subs]
+    \* an empty batch with nothing retained on either side changes nothing
+    [] e.ev = "after" /\ c.sig = <<>> /\ c.subs = <<>> /\ e.active = <<>> /\ DOMAIN c.act = {} ->
+         [c EXCEPT !.cycles = @ + 1, !.pending = FALSE, !.exp = <<>>]
     [] e.ev = "after" ->
          LET subs == [i \in DOMAIN c.subs |-> Sub(c, c.subs[i])]
              b == c.sig \o SelectSeq(subs, LAMBDA s : s.tok # <<>>)
